@@ -8,6 +8,10 @@ import (
 
 	"github.com/vicanso/elton"
 	"github.com/vicanso/elton/middleware"
+	"github.com/vicanso/pike/cache"
+	"github.com/vicanso/pike/config"
+	"github.com/vicanso/pike/location"
+	"github.com/vicanso/pike/server"
 	pup "github.com/vicanso/pike/upstream"
 	us "github.com/vicanso/upstream"
 	"pikeverif/internal/hx"
@@ -27,7 +31,7 @@ type upBackend struct {
 func runUpstream(seed uint64, n int, tier string, out string, replay string) {
 	rnd := hx.NewRand(seed)
 	sum := hx.NewSummary("upstream", seed)
-	sum.Rule = "one case = 1-4 upstream servers (random primary/backup mix, one of the four policies) built with pike's NewUpstreamServer against local HTTP listeners; ops: set a server healthy/sick/ignored through the library, pick a target through pike's target picker (batches of 3-12), finish a least-conn request, run one real DoHealthCheck round in which each listener fails a chosen number (0-5) of the 5 pings; a case is re-run if the library's background checker interfered; non-trivial = some pick happened while a primary was down or a backup was in use; distinct by op sequence"
+	sum.Rule = "one case = 1-4 upstream servers (random primary/backup mix, one of the four policies) built with pike's NewUpstreamServer against local HTTP listeners; ops: set a server healthy/sick/ignored through the library, pick a target through pike's target picker (batches of 3-12), finish a least-conn request, run one real DoHealthCheck round in which each listener fails a chosen number (0-5) of the 5 pings; a case is re-run if the library's background checker interfered; non-trivial = some pick happened while a primary was down or a backup was in use; distinct by op sequence; plus 6 end-to-end scenarios (one per policy and two more): primary + backup origins behind the upstream registry, requests through ONE long-lived proxy middleware, health driven through the origins' /ping answers and explicit DoHealthCheck rounds, with configuration reloads (upstream.Reset, same configuration) between the health changes: primary -> backup -> 5xx without contacting anyone -> backup -> primary"
 	header := "From Coq Require Import List NArith ZArith.\nImport ListNotations.\nFrom Pike Require Import Model.Upstream Corr.C19Corr.\n"
 	w := hx.NewCaseWriter(out, "upstream", header, "list u_case", "check_cases", 25, sum)
 	distinct := hx.NewDistinct()
@@ -212,7 +216,120 @@ func runUpstream(seed uint64, n int, tier string, out string, replay string) {
 		}
 		sum.Sample(r)
 	}
+	for k := 0; k < 6; k++ {
+		if v := upstreamReloadE2E(rnd, k, sum); v != nil {
+			sum.ImplViolations = append(sum.ImplViolations, v)
+		}
+	}
 	w.Flush()
 	sum.DistinctNontrivial = distinct.Len()
 	sum.Write(out)
+}
+
+// upstreamReloadE2E: a primary and a backup origin behind the upstream registry, requests through ONE
+// long-lived proxy middleware (as a running server has), with configuration reloads (upstream.Reset with
+// the same configuration) between health changes.  Health is driven through the origins' /ping answers
+// and explicit DoHealthCheck rounds on the live upstream.
+func upstreamReloadE2E(rnd *hx.Rand, k int, sum *hx.Summary) map[string]interface{} {
+	type origin struct {
+		srv  *httptest.Server
+		sick atomic.Bool
+		hits atomic.Int64
+	}
+	mk := func(name string) *origin {
+		o := &origin{}
+		o.srv = httptest.NewServer(http.HandlerFunc(func(rw http.ResponseWriter, r *http.Request) {
+			if r.URL.Path == "/ping" {
+				if o.sick.Load() {
+					rw.WriteHeader(500)
+				} else {
+					rw.WriteHeader(200)
+				}
+				return
+			}
+			o.hits.Add(1)
+			rw.Header().Set("X-Origin-Name", name)
+			rw.WriteHeader(200)
+			_, _ = rw.Write([]byte(name))
+		}))
+		return o
+	}
+	a, b := mk("primary"), mk("backup")
+	defer a.srv.Close()
+	defer b.srv.Close()
+	policy := []string{"first", "roundRobin", "", "random"}[k%4]
+	uname := fmt.Sprintf("ue%d", k)
+	cfg := []config.UpstreamConfig{{Name: uname, HealthCheck: "/ping", Policy: policy,
+		Servers: []config.UpstreamServerConfig{{Addr: a.srv.URL}, {Addr: b.srv.URL, Backup: true}}}}
+	pup.Reset(cfg)
+	defer pup.Reset(nil)
+	location.Reset([]config.LocationConfig{{Name: "ul", Upstream: uname}})
+	defer location.Reset(nil)
+	mid := server.NewProxy(server.NewServer(server.ServerOption{Locations: []string{"ul"}}))
+	request := func() string {
+		req := httptest.NewRequest("GET", "http://ue.example/x", nil)
+		req.RequestURI = "/x"
+		c := elton.NewContext(httptest.NewRecorder(), req)
+		c.Next = func() error { return nil }
+		server.VerifSetCacheStatus(c, cache.StatusPassed)
+		if err := mid(c); err != nil {
+			return "error"
+		}
+		if resp := server.VerifGetHTTPResp(c); resp != nil {
+			return resp.Header.Get("X-Origin-Name")
+		}
+		return "?"
+	}
+	var script []string
+	fail := func(step, want, got string) map[string]interface{} {
+		return map[string]interface{}{"property": "C19", "kind": "e2e-after-reload", "policy": policy, "script": script, "step": step, "expected": want, "answered_by": got}
+	}
+	expect := func(step, want string) map[string]interface{} {
+		script = append(script, step+" -> expect "+want)
+		for i := 0; i < 3; i++ {
+			if got := request(); got != want {
+				return fail(step, want, got)
+			}
+		}
+		return nil
+	}
+	settle := func() { pup.Get(uname).HTTPUpstream.DoHealthCheck() }
+	reload := func() {
+		if rnd.Chance(70) {
+			pup.Reset(cfg)
+			script = append(script, "reload (same configuration)")
+		}
+	}
+	sum.Count("e2e-reload-scenario")
+	if v := expect("start", "primary"); v != nil {
+		return v
+	}
+	reload()
+	a.sick.Store(true)
+	settle()
+	if v := expect("primary sick", "backup"); v != nil {
+		return v
+	}
+	reload()
+	b.sick.Store(true)
+	settle()
+	if v := expect("both sick", "error"); v != nil {
+		return v
+	}
+	if a.hits.Load()+b.hits.Load() != 6 {
+		return fail("both sick", "no origin contacted", fmt.Sprintf("%d requests reached an origin", a.hits.Load()+b.hits.Load()-6))
+	}
+	reload()
+	b.sick.Store(false)
+	settle()
+	if v := expect("backup recovered", "backup"); v != nil {
+		return v
+	}
+	reload()
+	a.sick.Store(false)
+	settle()
+	if v := expect("primary recovered", "primary"); v != nil {
+		return v
+	}
+	return nil
 }
